@@ -75,7 +75,8 @@ func kaScenario(id, K int, interval time.Duration, count int, kind string) strin
 	name := fmt.Sprintf("verifka%d", n)
 	registerProviders(name)
 	svr := &service.Server{ConnectTimeout: 1, SessionsProvider: name, TopicsProvider: name, Authenticator: "verifAuth"}
-	if kind == "deafsub" || kind == "deafecho" {
+	deaf := kind == "deafsub" || kind == "deafecho" || kind == "deafflood"
+	if deaf {
 		svr.BufferSize = 16384 // small rings: the deaf subscriber's outgoing ring is full well before its deadline
 	}
 	willTopic := []byte(fmt.Sprintf("will/%d", id))
@@ -98,17 +99,27 @@ func kaScenario(id, K int, interval time.Duration, count int, kind string) strin
 	d := time.Duration(eff)*time.Second + time.Duration(eff)*time.Second/5
 	last := time.Now()
 	active := "ok"
-	if kind == "deafecho" {
+	if kind == "deafecho" || kind == "deafflood" {
 		// the subject subscribes to a topic it publishes to itself, stops reading and sends until its own
-		// outgoing ring is full (its processor is then parked behind its own client), then falls silent
+		// outgoing ring is full (its processor is then parked behind its own client), then falls silent.
+		//   deafecho:  just enough packets for that (16 KiB ring, 4 packets fit, the echo of the 5th parks the
+		//              processor); the incoming ring keeps room for a read block, so the receiver is inside a
+		//              socket read with the keep-alive deadline armed when the client falls silent (finding F7)
+		//   deafflood: the client keeps sending until its writes block: the incoming ring fills up as well and
+		//              the receiver waits for ring space - no socket read is pending, no deadline is armed (F8)
 		topic := []byte(fmt.Sprintf("echo/%d", id))
+		// paused before the SUBSCRIBE: the reader goroutine's pending Read takes the SUBACK and nothing after it
+		cl.setPaused(true)
 		cl.write(wSubscribe(1, [][]byte{topic}, []int{0}))
 		cl.waitUntil(func() bool { return len(cl.items) > 0 }, brokerWait)
-		cl.setPaused(true)
-		pl := make([]byte, 4000)
-		for i := 0; i < 8; i++ {
+		pkt := wPub{qos: 0, topic: topic, payload: make([]byte, 4000)}.encode()
+		n := 16384/len(pkt) + 1
+		if kind == "deafflood" {
+			n += 3
+		}
+		for i := 0; i < n; i++ {
 			cl.conn.SetWriteDeadline(time.Now().Add(300 * time.Millisecond))
-			if _, err := cl.conn.Write(wPub{qos: 0, topic: topic, payload: pl}.encode()); err != nil {
+			if _, err := cl.conn.Write(pkt); err != nil {
 				break
 			}
 			last = time.Now()
@@ -169,17 +180,20 @@ func kaScenario(id, K int, interval time.Duration, count int, kind string) strin
 		}
 		last = time.Now()
 	}
-	if kind == "deafsub" || kind == "deafecho" {
+	closed := false
+	if deaf {
 		// a paused reader cannot see EOF: the end is observed through the teardown notification
 		select {
 		case <-cl.stopped:
 			cl.mu.Lock()
 			cl.eof = true
 			cl.mu.Unlock()
+			closed = true
 		case <-time.After(d + 3*time.Second):
 		}
+	} else {
+		closed = cl.waitUntil(func() bool { return cl.eof }, d+3*time.Second)
 	}
-	closed := cl.waitUntil(func() bool { return cl.eof }, d+3*time.Second)
 	elapsed := time.Since(last)
 	window := "ok"
 	if !closed {
@@ -190,6 +204,10 @@ func kaScenario(id, K int, interval time.Duration, count int, kind string) strin
 		window = fmt.Sprintf("late(%dms)", elapsed.Milliseconds())
 	}
 	will := 0
+	willWait := 3 * time.Second
+	if !closed {
+		willWait = time.Second // no teardown, no will: do not wait long for it
+	}
 	if wit.waitUntil(func() bool {
 		for _, it := range wit.items {
 			if len(it) > 4 && it[:4] == "PUB " {
@@ -197,7 +215,7 @@ func kaScenario(id, K int, interval time.Duration, count int, kind string) strin
 			}
 		}
 		return false
-	}, 3*time.Second) {
+	}, willWait) {
 		will = 1
 	}
 	wit.conn.Close()
